@@ -10,6 +10,7 @@ import (
 )
 
 type GenCfg struct {
+	Boom      bool // panicking operator boom (panics on the argument 2, identity otherwise)
 	Foreign   bool // ConstantMap constant KI of Go type int (no engine value type: arithmetic on it is a type error)
 	FailVar   bool // failing (unbound) variable e
 	Failing   bool // failing operator g
@@ -242,6 +243,10 @@ func (g *gen) tree(typ string, d int) (*Tree, int64) {
 				}
 				return op("if", c, a, b), ab
 			case 7:
+				if g.c.Boom && r.Intn(4) == 0 {
+					a, ab := g.tree("i", d-1)
+					return op("boom", a), ab
+				}
 				if g.c.Failing {
 					a, ab := g.tree("i", d-1)
 					return op("g", a), ab
